@@ -1,8 +1,14 @@
 """C13 Input and output value encoding is lossless and consistent."""
 import hashlib
+import json
+import os
 import re
+import sys
 
 import vlib
+
+sys.path.insert(0, os.path.dirname(os.path.abspath(__file__)))
+from t1 import run_t1  # noqa: E402  (T1 leaf translator tie, checks/t1.py)
 
 LEVEL = "proof"
 
@@ -43,7 +49,17 @@ THEOREMS = [
     "Mpc.C13_old_result_not_pure_witness",
     "Mpc.C13_result_nested_array_decodes",
     "Mpc.C13_split_spec",
+    # size inference with struct members (InstantiateWithSizes on type trees, the main-argument path)
+    "Mpc.C13_instantiate_identity_on_sized",
+    "Mpc.C13_instantiate_touches_only_unsized",
+    "Mpc.C13_instantiate_sized_members_keep_type",
+    "Mpc.C13_instantiate_member_width_partial",
+    "Mpc.C13_instantiate_nested_sizes_witness",
+    "Mpc.C13_mainarg_short_literal_keeps_layout",
 ]
+
+# op kinds whose oracle is a function of the op line alone: the harness re-runs them on the real code (`c13 judge`)
+JUDGEABLE = ("insts", "inst", "mainarg", "split")
 
 
 def distinct_ops(ctx, ops):
@@ -53,6 +69,54 @@ def distinct_ops(ctx, ops):
         parts = line.split()
         if len(parts) >= 3 and parts[-1] != "-" and not re.match(r"c13 result s8\.0 \d+$", line.strip()):
             ctx.distinct.add(hashlib.sha1(line.encode()).digest())
+
+
+def judge_ops(ctx, lines, tag, found_by):
+    """Route op lines through the implementation-side oracle of their kind: the harness re-runs each line on the
+    real code and judges the outcome, so a model/implementation disagreement on such an op is reported with the
+    concrete input instead of as a bare broken obligation."""
+    lines = [l for l in lines if len(l.split()) > 1 and l.split()[1] in JUDGEABLE]
+    if not lines or not getattr(ctx, "hx", None):
+        return None
+    path = os.path.join(ctx.work, "judge%s-%d.in" % (tag, ctx.seed))
+    with open(path, "w") as f:
+        f.write("\n".join(lines) + "\n")
+    _, _, meta = ctx.run_hx("judge", 0, extra_args=["-extra", "ops=" + path], tag=tag)
+    for f in meta.get("oracle_fails") or []:
+        f["found_by"] = found_by
+    ctx.absorb_meta(meta, prefix="judge_")
+    return meta
+
+
+def replay_exact(ctx):
+    """`bin/check C13 --replay F`: when F holds a failure with a judgeable op line (a type tree + size vector, or a
+    declared main argument + its input strings), re-run exactly that case on the real code before the seeded run."""
+    if "--replay" not in sys.argv:
+        return
+    try:
+        rp = sys.argv[sys.argv.index("--replay") + 1]
+        rp = rp if os.path.isabs(rp) else os.path.join(vlib.VERIF, rp)
+        f = json.load(open(rp)).get("failure") or {}
+    except Exception:
+        return
+    op = f.get("op") or ""
+    if len(op.split()) < 2 or op.split()[1] not in JUDGEABLE:
+        return
+    meta = judge_ops(ctx, [op], "-replay", "exact replay of " + os.path.basename(rp))
+    fails = (meta or {}).get("oracle_fails") or []
+    print("replayed case of %s: %s" % (os.path.basename(rp), clip_op(op)))
+    if f.get("src"):
+        print(vlib.indent(f["src"].rstrip()))
+        print("    inputs: %s" % json.dumps(f.get("inputs")))
+    if fails:
+        g = {k: v for k, v in fails[0].items() if k not in ("src", "op")}
+        print("  still fails on the real code: %s" % json.dumps(g, sort_keys=True)[:1500])
+    else:
+        print("  the case no longer fails on the real code")
+
+
+def clip_op(op):
+    return op if len(op) < 400 else op[:400] + "..."
 
 
 def facts(ctx):
@@ -81,25 +145,35 @@ def facts(ctx):
 
 def run(ctx):
     ctx.prove("MpcVerif.Props.C13", THEOREMS)
+    run_t1(ctx, ["C13"])          # circuit.bitLen = IoArg.bitLen
     if ctx.tier == "thorough":
         ctx.leanchecker("MpcVerif.Props.C13")
     ctx.build_drv()
     facts(ctx)
     if ctx.tier == "quick":
-        plan = [("all", 30000, ctx.seed)]
+        plan = [("inst", 4000, ctx.seed), ("all", 30000, ctx.seed)]
     else:
-        plan = [("all", 300000, ctx.seed), ("all", 300000, ctx.seed + 1000), ("enc", 200000, ctx.seed + 2000),
+        plan = [("inst", 60000, ctx.seed), ("inst", 60000, ctx.seed + 6000),
+                ("all", 300000, ctx.seed), ("all", 300000, ctx.seed + 1000), ("enc", 200000, ctx.seed + 2000),
                 ("result", 150000, ctx.seed + 3000), ("sizes", 60000, ctx.seed + 4000), ("misc", 100000, ctx.seed + 5000)]
     if ctx.build_hx():
+        replay_exact(ctx)
         for mode, n, s in plan:
             ops, out, meta = ctx.run_hx(mode, n, seed=s)
             ctx.absorb_meta(meta)
-            ctx.correspond("Parse/Set/Sizes/InputSizes/Result/Split/Instantiate/types.Parse (%s, seed %d)" % (mode, s),
-                           ops, out)
+            kept = ctx.correspond("Parse/Set/Sizes/InputSizes/Result/Split/Instantiate/types.Parse/main argument "
+                                  "(%s, seed %d)" % (mode, s), ops, out, maxkeep=40)
             distinct_ops(ctx, ops)
+            if kept and not any(not ctx.is_known(f) for f in ctx.fails):
+                # the disagreeing ops go through the oracle of their kind: concrete input instead of a bare obligation
+                want = {d["index"] for d in kept}
+                with open(ops, errors="replace") as fo:
+                    lines = [l.rstrip("\n") for i, l in enumerate(fo) if i in want]
+                judge_ops(ctx, lines, "-%s" % mode,
+                          "oracle re-run of ops on which model and implementation disagree (%s, seed %d)" % (mode, s))
         if ctx.broken and not any(not ctx.is_known(f) for f in ctx.fails):
             # widened search for a concrete failing input: focused generators, more seeds
-            for k, mode in enumerate(["enc", "result", "sizes", "misc", "enc", "result"]):
+            for k, mode in enumerate(["inst", "enc", "result", "sizes", "misc", "inst", "enc", "result"]):
                 ops, out, meta = ctx.run_hx(mode, 20000, seed=ctx.seed + 7000 + k, tag="-widen")
                 ctx.absorb_meta(meta, prefix="widen_")
                 if any(not ctx.is_known(f) for f in ctx.fails):
@@ -109,7 +183,14 @@ def run(ctx):
                 "spell_hex", "spell_dec", "spell_bin", "arrspell_hex", "arrspell_dec", "independence_parse",
                 "independence_set", "result_array_len0", "result_string", "op_flow", "op_split", "op_inst", "op_ty",
                 "any_parse_err_panic", "any_set_err_toomany", "sizes_class_two-or-three", "sizes_class_negative",
-                "result_nil_outputs", "result_nested_roundtrip", "corpus_witnesses", "corpus_string_bytes"]
+                "result_nil_outputs", "result_nested_roundtrip", "corpus_witnesses", "corpus_string_bytes",
+                # size inference with struct members
+                "op_insts", "op_mainarg", "inst_corpus", "mainarg_roundtrip", "mainarg_set",
+                "decl_struct_mixing_sized_and_unsized", "decl_nested_struct", "decl_array_of_struct", "decl_slice",
+                "decl_unsized_int", "decl_top_leaf", "mainarg_sized_literal_shorter", "mainarg_sized_literal_equal",
+                "mainarg_sized_literal_longer", "mainarg_sized_literal_empty", "mainarg_literals_toomany",
+                "insts_struct", "insts_perturbed", "insts_arbitrary_tree", "insts_err_count", "insts_err_panic",
+                "insts_err_unsupported"]
         missing = [k for k in need if not c.get(k)]
         ctx.oblige("generator reached 0-length arrays, short literals, compounds, wide negative ints, hex/decimal/"
                    "binary spellings, error and panic paths", not missing, "not reached: %s" % missing)
@@ -119,7 +200,16 @@ def run(ctx):
         "(decimal/0x/0X/0b/0o/sign/underscore) and a Go-value form; any: arbitrary (also ill-formed, nested) infos, "
         "junk strings and dynamically mistyped values; result: encode/decode round trips plus arbitrary cell contents, "
         "two calls on one *big.Int; sizes: value/decimal-text pairs; misc: Split, InstantiateWithSizes, types.Parse and "
-        "the InputSizes->Instantiate->Parse flow. distinct = distinct op lines carrying at least one value.")
+        "the InputSizes->Instantiate->Parse flow; inst: (a) InstantiateWithSizes called on type trees (structs of 1..5 "
+        "members mixing sized and unsized ones, nested structs, arrays of structs, slices, single leaves; bookkeeping "
+        "fields perturbed; arbitrary ill-formed trees for the error paths) with size vectors whose entries are shorter "
+        "than / equal to / longer than the declared size, zero, or missing, judged by: shape kept, sized leaves "
+        "unchanged, unsized leaf k sized from entry k, offsets = running sums, total = sum; (b) a synthesized MPCL "
+        "program whose garbler argument has such a type is compiled with the sizes InputSizes infers from one literal "
+        "per member (empty / short / full / zero-padded / too long; decimal, 0x, 0b spellings), then Parse, Set, "
+        "circ.Compute and mpc.Result: every sized member keeps its declared type, every unsized member gets the "
+        "written size, every member sits on its declared wires, the Go-value form gives the same wires, decoding "
+        "returns the values. distinct = distinct op lines carrying at least one value.")
     ctx.assumptions += [
         "big.Int.SetString(s, 0), regexp matching and unicode.IsPrint are taken as given (SetString's outcome is an "
         "input of the model; the two POSIX patterns and the Latin-1 IsPrint table are re-implemented in the model and "
@@ -129,6 +219,11 @@ def run(ctx):
         "the wire view of a *big.Int is Bit(0..Bits-1), which is how garbler.go / evaluator.go / computer.go read it",
         "Go-value forms are those IOArg.Set accepts: bool, int8..uint64, []byte, nil",
         "struct outputs fall through to Result's default branch (a formatted string); no inversion is claimed for them",
+        "main-argument path: the declared type handed to the model is the harness's reading of the declaration "
+        "(TypeInfo.Resolve / defineType: offsets = running sums, IsConcrete false exactly for int/uint without width and "
+        "slices); the instantiated argument printed by the real compiler is compared with the model's on every case",
+        "unsized signed `int` members are given literals with a leading zero bit and unsized members no negative values "
+        "(InputSizes ignores the sign: listed finding C13-sizes-negative-values)",
     ]
     return ctx.finish(
         "Theorems (Props/C13.lean) over the executable Lean model of IOArg.Parse/Set, Sizes/InputSizes/bitLen, IO.Split "
@@ -140,4 +235,10 @@ def run(ctx):
         "on the compiled model and compared line by line (values, error kinds, panics). Oracle: the harness's own "
         "reference encoder (two's complement little-endian per element, declaration order) against the wires of the "
         "real Parse and Set, member perturbation, Sizes vs InputSizes vs written width, decode(encode v) = v, "
-        "deep-copy comparison of the *big.Int across two Result calls.")
+        "deep-copy comparison of the *big.Int across two Result calls. Size inference with struct members: "
+        "InstantiateWithSizes is the identity on sized types and touches only unsized leaves (induction over the type "
+        "tree, Ty.inst in Model/IoInst.lean), the result has the struct layout, sized members keep their Info in the "
+        "flattened argument; tied by the insts / mainarg ops (real InstantiateWithSizes, real compile of a synthesized "
+        "program) and judged on the real results; ops on which model and implementation disagree are re-run through "
+        "the oracle of their kind (c13 judge) so that the report carries the concrete input. Still violated: a member "
+        "that follows a nested struct is sized from an earlier input (C13_instantiate_nested_sizes_witness).")
